@@ -109,10 +109,10 @@ def gen_scripts(c, n, maxj=4, maxn=2, cancel=True, outcomes=("ok", "err", "goexi
     return path, k
 
 
-def run_driver(c, drv, name, args, timeout=1200):
+def run_driver(c, drv, name, args, timeout=1200, env=None):
     out = os.path.join(c.scratch, name)
     cmd = [drv, "-out", out] + [str(a) for a in args]
-    r = subprocess.run(cmd, capture_output=True, text=True, timeout=timeout, env=GOENV)
+    r = subprocess.run(cmd, capture_output=True, text=True, timeout=timeout, env=dict(GOENV, **(env or {})))
     if r.returncode != 0:
         tail = (r.stdout + r.stderr)[-3000:]
         if "DATA RACE" in tail or "WARNING: DATA RACE" in (r.stdout + r.stderr):
@@ -231,9 +231,11 @@ def conformance(c, batches, hooks=True, hook_limit=None):
     files violations / inconclusive results in c."""
     drv = build_driver(c)
     total_runs = 0
-    for name, args in batches:
-        c.log("driver", name, " ".join(str(a) for a in args))
-        out, r = run_driver(c, drv, name, args)
+    for batch in batches:
+        name, args = batch[0], batch[1]
+        env = batch[2] if len(batch) > 2 else None
+        c.log("driver", name, " ".join(str(a) for a in args), env or "")
+        out, r = run_driver(c, drv, name, args, env=env)
         c.notes.append("%s: %s" % (name, r.stdout.strip().splitlines()[-1] if r.stdout.strip() else ""))
         specs = {}
         for l in open(os.path.join(out, "runs.ndjson")):
@@ -258,7 +260,7 @@ def conformance(c, batches, hooks=True, hook_limit=None):
         hk = os.path.join(out, "hook.json")
         if hooks and os.path.exists(hk):
             # the interleaving search is expensive for runs in which many workers die and are replaced
-            lim = min(hook_limit or 10**9, 20) if name in ("capacity", "prompt") else hook_limit
+            lim = min(hook_limit or 10**9, 20) if name.startswith(("capacity", "prompt")) else hook_limit
             acc, rej, skipped = validate_hooks(c, hk, name, limit=lim)
             c.cov["hook_traces_accepted"] = c.cov.get("hook_traces_accepted", 0) + acc
             c.cov["traces_validated_against_impl"] += acc
